@@ -6,6 +6,7 @@ import (
 	"encoding/json"
 	"fmt"
 	"sort"
+	"sync/atomic"
 	"time"
 
 	"github.com/Tom-Johnston/mamba/graph"
@@ -301,6 +302,95 @@ func runC10(c *Ctx) {
 		}
 		c.Count(fmt.Sprintf("labelled_graphs_n%d_x_reps%d", n, len(reprs)), total)
 	}
+	if !c.Thorough() {
+		// quick: one representative of every isomorphism class on 7 vertices (1044) under identity, reversal, rotation
+		// and three fixed pseudo-random relabellings, dense and sparse (thorough runs all 2^21 labelled graphs instead)
+		_, reps7 := getSweepC10(7)
+		perms := [][]int{nil}
+		perms = append(perms, relabelBattery(7, false, 3)...)
+		var n7 int64
+		c.parFor(int64(len(reps7)), 4, func(lo, hi int64) {
+			for _, r := range reps7[lo:hi] {
+				iv := computeInvC10(mgFromMask(7, r))
+				for pi, p := range perms {
+					mask := r
+					if p != nil {
+						mask = permuteMask(7, r, p)
+					}
+					rep := "dense"
+					if pi%2 == 1 {
+						rep = "sparse"
+					}
+					gc := giCase{N: 7, Mask: mask, G6: g6(7, mask), Rep: rep}
+					c.CheckTimed(120*time.Second, func() *Failure { return evalC10(gc, iv) }, func() *Failure {
+						return &Failure{Class: "invariants/does-not-terminate", What: fmt.Sprintf("%s %s: no answer within 120s", rep, gc.G6), Kind: "c10", Replay: gc}
+					})
+					atomic.AddInt64(&n7, 1)
+					c.Nontrivial(1)
+				}
+			}
+		})
+		c.SetCount("class_representatives_n7_x_relabellings", n7)
+	}
+	// disconnected graphs with 8..11 vertices: every pair and triple of small components (cycles, paths, stars, K4,
+	// the diamond, K2,3), in every order of the components, dense and sparse; reference values by brute force
+	{
+		comps := []struct {
+			name string
+			n    int
+			e    [][2]int
+		}{
+			{"C3", 3, [][2]int{{0, 1}, {1, 2}, {0, 2}}}, {"C4", 4, [][2]int{{0, 1}, {1, 2}, {2, 3}, {0, 3}}}, {"C5", 5, [][2]int{{0, 1}, {1, 2}, {2, 3}, {3, 4}, {0, 4}}},
+			{"P2", 2, [][2]int{{0, 1}}}, {"P3", 3, [][2]int{{0, 1}, {1, 2}}}, {"P4", 4, [][2]int{{0, 1}, {1, 2}, {2, 3}}}, {"S3", 4, [][2]int{{0, 1}, {0, 2}, {0, 3}}},
+			{"K4", 4, [][2]int{{0, 1}, {0, 2}, {0, 3}, {1, 2}, {1, 3}, {2, 3}}}, {"diamond", 4, [][2]int{{0, 1}, {0, 2}, {1, 2}, {1, 3}, {2, 3}}},
+			{"K2,3", 5, [][2]int{{0, 2}, {0, 3}, {0, 4}, {1, 2}, {1, 3}, {1, 4}}}, {"K1", 1, nil},
+		}
+		var gcs []giCase
+		build := func(idx []int) {
+			n := 0
+			for _, i := range idx {
+				n += comps[i].n
+			}
+			if n < 8 || n > 11 {
+				return
+			}
+			var mask uint64
+			base := 0
+			for _, i := range idx {
+				for _, e := range comps[i].e {
+					a, b := e[0]+base, e[1]+base
+					if a > b {
+						a, b = b, a
+					}
+					mask |= 1 << uint(b*(b-1)/2+a)
+				}
+				base += comps[i].n
+			}
+			for _, rep := range []string{"dense", "sparse"} {
+				gcs = append(gcs, giCase{N: n, Mask: mask, G6: g6(n, mask), Rep: rep})
+			}
+		}
+		for i := range comps {
+			for j := range comps {
+				build([]int{i, j})
+				for k := range comps {
+					if comps[i].n+comps[j].n+comps[k].n <= 11 {
+						build([]int{i, j, k})
+					}
+				}
+			}
+		}
+		c.parFor(int64(len(gcs)), 4, func(lo, hi int64) {
+			for _, gc := range gcs[lo:hi] {
+				gc := gc
+				c.CheckTimed(120*time.Second, func() *Failure { return evalC10(gc, nil) }, func() *Failure {
+					return &Failure{Class: "invariants/does-not-terminate", What: fmt.Sprintf("%s %s: no answer within 120s", gc.Rep, gc.G6), Kind: "c10", Replay: gc}
+				})
+				c.Nontrivial(1)
+			}
+		})
+		c.SetCount("disconnected_unions_8_to_11_vertices", int64(len(gcs)))
+	}
 	c10Large(c)
 	var vcs []viewCase
 	for n := 3; n <= 5; n++ {
@@ -315,6 +405,11 @@ func runC10(c *Ctx) {
 	c.SetCount("view_histories", int64(len(vcs)))
 	c.Sample("graph", giCase{N: 6, Mask: 0x1b47, G6: g6(6, 0x1b47), Rep: "induced-view"})
 	c.Assume("graphs with n >= 8 are not covered")
+}
+
+func getSweepC10(n int) ([]int32, []uint64) {
+	sw := getSweep(n)
+	return sw.class, sw.reps
 }
 
 func replayC10(kind string, raw json.RawMessage) *Failure {
